@@ -263,7 +263,11 @@ func c07One(res *Result, base string, cs *c07Case, distinct map[string]struct{})
 		res.Error = err.Error()
 		return
 	}
-	replay := map[string]any{"kind": "c07", "case": cs}
+	files := map[string]string{}
+	for n, rd := range p.files {
+		files[n] = rd.text
+	}
+	replay := map[string]any{"kind": "c07", "case": cs, "files": files}
 	nInc := 0
 	for _, tt := range cs.Content {
 		for _, t := range tt {
